@@ -27,6 +27,8 @@ let parse_op (op : string) : pop =
   | "I" :: n :: seed :: _ -> PInsert (row_bytes (i n) (i seed))
   | "J" :: slot :: n :: seed :: _ -> PInsertAt (n_of_int (i slot), row_bytes (i n) (i seed))
   | "U" :: slot :: n :: seed :: rb :: _ -> PUpdate (n_of_int (i slot), row_bytes (i n) (i seed), rb = "1")
+  | "IH" :: h :: _ -> PInsert (bytes_of_hex h)
+  | "UH" :: slot :: h :: rb :: _ -> PUpdate (n_of_int (i slot), bytes_of_hex h, rb = "1")
   | "M" :: slot :: _ -> PMark (n_of_int (i slot))
   | "A" :: slot :: _ -> PApply (n_of_int (i slot))
   | "R" :: slot :: _ -> PRollback (n_of_int (i slot))
